@@ -142,6 +142,13 @@ Theorem C17_fuel : forall b : list byte,
 Proof. exact (fun b => conj (decode_fuel b) (conj (benc_decode_fuel b) (check_encoding_fuel b))). Qed.
 Print Assumptions C17_fuel.
 
+(** The file identifies the table: two different lock tables never share a file image, so
+    a reader cannot be handed another table's holds by a byte-identical file. *)
+Theorem C17_injective : forall es1 es2 : entries,
+  wf es1 -> wf es2 -> encode es1 = encode es2 -> to_map es1 = to_map es2.
+Proof. exact encode_determines_map. Qed.
+Print Assumptions C17_injective.
+
 (** The hypotheses are satisfiable: empty strings, non-ASCII bytes, an empty session,
     negative and extreme sizes; the empty map; and the witnesses are Go byte slices. *)
 Definition C17_example : entries :=
